@@ -11,6 +11,7 @@ leaf visit and serial walk are compared with the spec's history.
 import itertools
 import json
 import os
+import random
 
 from lib import repo, tla
 
@@ -111,6 +112,39 @@ def _build(kind, depth, acc, apex, use_plain_toast=False):
     return p
 
 
+PAR_FRACTION = 16        # one case in PAR_FRACTION (all cases with a gap tile) is also visited with two workers
+_GEO_CENTRES = {}
+
+
+def _centre_key(corners):
+    import numpy as np
+    c = np.array([[float(p_[0]), float(p_[1])] for p_ in corners])
+    v = np.stack([np.cos(c[:, 1]) * np.cos(c[:, 0]), np.cos(c[:, 1]) * np.sin(c[:, 0]), np.sin(c[:, 1])], axis=1).sum(axis=0)
+    v /= np.linalg.norm(v)
+    return tuple(int(round(float(t) * 1e7)) for t in v)
+
+
+def _geo_filters(depth, acc):
+    """The position filter `acc` lifted to geometry, once per coordinate system: a tile is accepted iff the centre of the
+    corners it is shown with is the centre of an accepted position of its level IN THAT coordinate system (reference
+    geometry: create_single_tile, judged by C04)."""
+    from toasty import toast
+    from toasty.pyramid import Pos
+    out = []
+    for csname, cs in (("astronomical", toast.ToastCoordinateSystem.ASTRONOMICAL), ("planetary", toast.ToastCoordinateSystem.PLANETARY)):
+        table = _GEO_CENTRES.setdefault((csname, depth), {})
+        if not table:
+            for n in range(1, depth + 1):
+                for q_ in level(n):
+                    table[(n, _centre_key(toast.create_single_tile(Pos(*q_), coordsys=cs).corners))] = tuple(q_)
+
+        def flt(tile, table=table):
+            q_ = table.get((tile.pos.n, _centre_key(tile.corners)))
+            return q_ is not None and q_ in acc
+        out.append((csname, {"filter": flt, "cs": cs}))
+    return out
+
+
 def replay_case(args):
     """Returns a list of (severity, key, message); severity 'V' = property monitor failed, 'D' = drift."""
     depth, rec = args
@@ -204,6 +238,52 @@ def replay_case(args):
                 bad("V", "walk-serial", "walk called back for %s, expected %s" % (walked, exp_ops))
         except Exception as e:  # noqa
             bad("V", "walk-serial", "walk raised %r" % (e,))
+        # (3a) the same visits with worker processes (deterministic scheduler): the SET of tiles visited is the one counted.
+        # Cases with a "gap" (a tile the filter accepts while it rejects all four children) on the level above the leaves,
+        # where a parallel walk seeds its queue, are always taken; of the others, a fixed fraction
+        gap = any(q_[0] == depth - 1 and q_ in acc and not any(k in acc for k in kids(q_)) for q_ in acc) if depth >= 2 else False
+        if depth >= 1 and (gap or (hash((kind, tuple(sorted(acc)), apex)) % PAR_FRACTION == 0)):
+            from lib import simrun
+            for what, expv in (("walk", exp_ops), ("visit_leaves", exp_leaves)):
+                p = _build(kind, depth, acc, apex, plain)
+                got2 = []
+                if what == "walk":
+                    fn = lambda: p.walk(lambda pos: got2.append(tuple(pos)), parallel=2)      # noqa: E731
+                else:
+                    fn = lambda: p.visit_leaves(lambda pos, tile: got2.append(tuple(pos)), parallel=2)      # noqa: E731
+                o2 = simrun.run(fn, simrun.pol_random(random.Random(len(acc) * 7919 + depth)))
+                if o2.status == "returned" and sorted(got2) != sorted(expv):
+                    extra = sorted(set(got2) - set(expv))
+                    bad("V", "%s-parallel" % what, "%s with 2 workers visited %d tiles, spec %d (not in the spec's set: %s; missing: %s)"
+                        % (what, len(got2), len(expv), extra[:4], sorted(set(expv) - set(got2))[:4]))
+                elif o2.status != "returned" and expv:
+                    bad("D", "%s-parallel" % what, "%s with 2 workers ended as %s under the scheduler (C01 / C03 judge termination)" % (what, o2.status))
+        # (3b) the same filter decided from the tile's GEOMETRY (as footprint filters do) in each coordinate system: the
+        # pyramid must show its filter tiles of its own coordinate system everywhere - counts, leaf visits and walks
+        if kind == "toast" and not plain and depth >= 1:
+            for csname, geo in _geo_filters(depth, acc):
+                def build():
+                    from toasty.pyramid import Pyramid
+                    q_ = Pyramid.new_toast_filtered(depth, geo["filter"], coordsys=geo["cs"])
+                    return q_.subpyramid(Pos(*apex)) if apex != ROOT else q_
+                for name, key in (("count_leaf_tiles", "lf"), ("count_live_tiles", "lv"), ("count_operations", "op")):
+                    try:
+                        v = getattr(build(), name)()
+                    except Exception as e:  # noqa
+                        bad("V", "geometry-filter:" + name, "[%s, filter deciding from tile corners] %s raised %r" % (csname, name, e))
+                        continue
+                    if v != fin[key] and not (exp_pos == [] and v == 0):
+                        bad("V", "geometry-filter:" + name, "[%s pyramid, filter deciding from the tile's corners] %s() = %r, spec %r" % (csname, name, v, fin[key]))
+                seen2, walked2 = [], []
+                try:
+                    build().visit_leaves(lambda pos, tile: seen2.append(tuple(pos)), parallel=1)
+                    build().walk(lambda pos: walked2.append(tuple(pos)), parallel=1)
+                    if seen2 != exp_leaves:
+                        bad("V", "geometry-filter:visit-leaves", "[%s pyramid, filter deciding from the tile's corners] visited %d leaves, spec %d" % (csname, len(seen2), len(exp_leaves)))
+                    if walked2 != exp_ops:
+                        bad("V", "geometry-filter:walk", "[%s pyramid, filter deciding from the tile's corners] walk called back for %s, spec %s" % (csname, walked2, exp_ops))
+                except Exception as e:  # noqa
+                    bad("V", "geometry-filter:visit", "[%s pyramid, filter deciding from the tile's corners] visit raised %r" % (csname, e))
         # (4) the generator itself: every in-scope position once, children first, tile paired with its position
         p = _build(kind, depth, acc, apex, plain)
         g = [tuple(pos) for pos, _t in p._generator()]
